@@ -168,6 +168,16 @@ theorem C05_g5_decode_agrees_C023_of_spec (b : Bytes) (nr rl rc : Nat) (hb : All
     (hs : readAcStatus (subHeader 0x23 nr rl rc ++ b) = some ss) : RecordWise AgreeC023 zs ss :=
   SpecAgree5.decode_agrees_C023_of_spec b nr rl rc hb zs rest ss h hs
 
+/-- KNOWN FINDINGS `C05:sentinel:AT5_C023_SETPOINT_HAS_NO_ABSENT_VALUE` / `..._TEMPERATURE_HAS_NO_ABSENT_VALUE`, as a theorem about
+    the model of the decoder: "the documented not-available sentinels decode to absent values" FAILS for the AC status record
+    `10 41 ff 00 07 ff 00 00` - the vendor reading has neither set-point (Byte3 = 255) nor temperature (VALUE = 2047), the decoder
+    (plain numbers) returns 35.5 degC and 154.7 degC.  This is why `AgreeC023` carries the two extra disjuncts. -/
+theorem C05_g5_sentinels_decode_to_numbers_C023 :
+    (readAcStatusRecord [0x10, 0x41, 0xFF, 0x00, 0x07, 0xFF, 0, 0]).map (fun s => (s.setpoint, s.temperature)) = some (none, none) ∧
+    (match decRec [0x10, 0x41, 0xFF, 0x00, 0x07, 0xFF, 0, 0] with
+      | .ok z => some (z.set_point, z.temperature) | .error _ => none) = some (355, 1547) := by
+  constructor <;> rfl
+
 /-- An undefined AC power, mode or fan speed code ("Other: Not available", vendor reading `notAvailable n`) in any
 record makes the decoder raise. -/
 theorem C05_g5_undefined_rejected_C023 (b : Bytes) (nr rl rc : Nat) (hb : AllBytes b) (ss : List AcStatus)
